@@ -15,6 +15,13 @@ impl ScopedCounter {
         }
     }
 
+    /// A counter that starts at `count`; used to carry a depth into a nested scope.
+    pub fn starting_at(count: usize) -> ScopedCounter {
+        ScopedCounter {
+            count: RefCell::new(count),
+        }
+    }
+
     pub fn count(&self) -> usize {
         *self.count.borrow()
     }
